@@ -10,6 +10,9 @@ import H4.Driver.Annot
 import H4.Driver.Il
 import H4.Driver.Vs
 import H4.Driver.MCache
+import H4.Driver.Bits
+import H4.Driver.SkpHuff
+import H4.Driver.NBit
 open H4.Driver
 
 /-- state of every stateful engine; reset at each `CASE` line -/
@@ -35,6 +38,9 @@ def stepWorld (w : World) (engine : String) (args : List String) : World × Stri
   | "il" => (w, stepIl args)
   | "vs" => let (s, out) := stepVs w.vs args; ({ w with vs := s }, out)
   | "mcache" => let (m, out) := stepMcache w.mcache args; ({ w with mcache := m }, out)
+  | "bits" => (w, stepBits args)
+  | "skphuff" => (w, stepSkpHuff args)
+  | "nbit" => (w, stepNBit args)
   | "hp" => let (h, r) := stepHp w.hp args; ({ w with hp := h }, r)
   | _ => (w, "bad-engine")
 
